@@ -217,12 +217,25 @@ func runC02(c *mon.Ctx) {
 		var doc string
 		var err error
 		isLogout := kind == "logout-req" || kind == "logout-resp"
+		// a root element without an ID, its signature referring to the whole document (URI=""): still that element's own
+		// signature, to be verified like any other (a message without ID is not schema-valid: refusing it outright is fine)
+		noID := kind != "sso-assert" && spec != nil && r.IntN(6) == 0
+		if noID {
+			spec.RefURI = sim.S("")
+			c.Count("root-without-id", 1)
+		}
 		if isLogout {
 			l := sim.GenuineLogout(w.Env, kind == "logout-resp")
 			l.Sig = spec
+			if noID {
+				l.ID = nil
+			}
 			doc, err = sim.BuildLogout(l, st)
 		} else {
 			rec := sim.GenuineResponse(w.Env, 1+r.IntN(2))
+			if noID {
+				rec.ID = nil
+			}
 			switch kind {
 			case "sso-resp":
 				rec.Sig = spec
@@ -336,7 +349,10 @@ func runC02(c *mon.Ctx) {
 				}
 			}
 		}
-		cs.Desc("kind=%s signer=%s clock=%s tamper=%s store=%d inStore=%v spec=%s dsOnRoot=%v nsCharRef=%v usage=%d", kind, sg, clk.name, tamper, storeSize, inStore, spec, spec.NoNSDecl, spec.NSCharRef, profile)
+		if noID {
+			kind += "" // (the violation keys keep the kind; the description says the root has no ID)
+		}
+		cs.Desc("noID=%v kind=%s signer=%s clock=%s tamper=%s store=%d inStore=%v spec=%s dsOnRoot=%v nsCharRef=%v usage=%d", noID, kind, sg, clk.name, tamper, storeSize, inStore, spec, spec.NoNSDecl, spec.NSCharRef, profile)
 		cs.Input([]byte(doc))
 		sp, spy, _ := NewSP(now, store...)
 		spy.WantStacks = true
@@ -383,6 +399,8 @@ func runC02(c *mon.Ctx) {
 			// a KeyInfo that names the certificate without carrying it may be refused as incomplete; honouring it is
 			// right only against a store of exactly one (which "honour" already says)
 			cs.Outcome("name-only-keyinfo-refused")
+		case honour && noID && !accepted:
+			cs.Outcome("root-without-id-refused")
 		case honour && (!accepted || !flagged):
 			cs.Outcome("trusted-not-honoured")
 			cs.Violation("trusted-signature-not-honoured:"+kind, "a signature by store member (clock %s inside the window, untampered) was not honoured: accepted=%v flagged=%v err=%v", clk.name, accepted, flagged, rerr)
